@@ -12,6 +12,7 @@ import (
 	"os"
 	"strings"
 	"sync"
+	"sync/atomic"
 	"time"
 
 	"github.com/grailbio/bigmachine"
@@ -370,9 +371,14 @@ func main() {
 		killed       []string
 	}
 	results := make([]result, len(descs))
+	ran := make([]bool, len(descs))
 	sem := make(chan struct{}, 6)
 	var wg sync.WaitGroup
+	var hung int32 // runs that did not return: each costs a full watchdog, a few are evidence enough
 	for i := range descs {
+		if atomic.LoadInt32(&hung) >= 4 && opts.Replay == "" {
+			break
+		}
 		wg.Add(1)
 		sem <- struct{}{}
 		go func(i int) {
@@ -380,11 +386,21 @@ func main() {
 			defer func() { <-sem }()
 			r := &results[i]
 			r.first, r.again, r.trace, r.killed = scenario(descs[i])
+			ran[i] = true
+			for _, e := range []string{r.first.Err, r.again.Err} {
+				if e == "timeout" || e == "hang" {
+					atomic.AddInt32(&hung, 1)
+					break
+				}
+			}
 		}(i)
 	}
 	wg.Wait()
 	_ = context.Background
 	for i, d := range descs {
+		if !ran[i] {
+			continue
+		}
 		r := results[i]
 		term := vf.App("mkCase", d.Prog.Term(), vf.Nat(len(r.killed)), obsTerm(r.first), obsTerm(r.again))
 		nt := ""
